@@ -310,6 +310,10 @@ func init() {
 		}
 		return in.mkByteSlice(ts)
 	}
+	// sockets have no descriptor in the model: closing one and setting deadlines succeed
+	for _, m := range []string{"Close", "SetDeadline", "SetReadDeadline", "SetWriteDeadline"} {
+		intrinsics["(*net.conn)."+m] = func(in *Interp, fr *frame, a []Value) Value { return Iface{} }
+	}
 	intrinsics["net.JoinHostPort"] = func(in *Interp, fr *frame, a []Value) Value {
 		h, p := a[0].(*StrV), a[1].(*StrV)
 		hs, ok1 := h.Concrete()
